@@ -549,6 +549,7 @@ func ruleJSN3(c *Ctx) {
 func ruleJSN4(c *Ctx) {
 	p := c.P
 	jsn4WholeInput(c)
+	jsn4OperandKinds(c)
 	// named rejections: (function, description, recogniser on an If condition whose taken edge returns an error)
 	type rej struct {
 		fn   string
@@ -1387,4 +1388,82 @@ func decodeHelperParam(f *ssa.Function) int {
 		}
 	}
 	return -1
+}
+
+
+// jsn4OperandKinds (D37): the format lets a plain string, number or boolean stand wherever a condition object is
+// expected. The operands of the comparison and arithmetic operators go through parseOperand, which accepts them; the
+// translator of and/or has its own loop over the operands and has to agree with its siblings: an operand that is no
+// object is handed to parseOperand, not refused.
+func jsn4OperandKinds(c *Ctx) {
+	p := c.P
+	fn := p.Func("pkg", "buildCompoundOperator")
+	po := p.Func("pkg", "parseOperand")
+	if fn == nil || po == nil {
+		c.AnchorLost("pkg.buildCompoundOperator / pkg.parseOperand")
+		return
+	}
+	construct := "buildCompoundOperator / an operand that is no object is translated like the operand of any other operator"
+	n := 0
+	for _, b := range fn.Blocks {
+		for _, in := range b.Instrs {
+			ta, ok := in.(*ssa.TypeAssert)
+			if !ok || !ta.CommaOk {
+				continue
+			}
+			if _, isMap := ta.AssertedType.Underlying().(*types.Map); !isMap {
+				continue
+			}
+			// the asserted value is an element of the operand array (not the array itself)
+			if _, isLoadOfElem := unspill(ta.X).(*ssa.UnOp); !isLoadOfElem {
+				continue
+			}
+			// the If on the ok flag
+			var iff *ssa.If
+			for _, r := range *ta.Referrers() {
+				if ex, isEx := r.(*ssa.Extract); isEx && ex.Index == 1 {
+					for _, r2 := range *ex.Referrers() {
+						if i2, isIf := r2.(*ssa.If); isIf {
+							iff = i2
+						}
+					}
+				}
+			}
+			if iff == nil {
+				continue
+			}
+			n++
+			t, path := reach(fn, iff, func(x ssa.Instruction) bool { _, isRet := x.(*ssa.Return); return isRet }, func(x ssa.Instruction) bool {
+				call, isCall := x.(ssa.CallInstruction)
+				return isCall && call.Common().StaticCallee() == po && len(call.Common().Args) > 0 && sameElem(call.Common().Args[0], ta.X)
+			}, func(bb *ssa.BasicBlock, si int) bool { return bb != iff.Block() || si == 1 })
+			if t != nil {
+				c.Fail(construct, p.InstrPos(ta), "an `and`/`or` operand that is a plain string, number or boolean is refused (or dropped) although the format allows it wherever a condition object is expected and every other operator accepts it: {\"and\":[\"F.A == 0\",{\"eq\":[…]}]} is a valid rule that cannot be loaded", pathString(p, path)...)
+			} else {
+				c.OK(construct, p.InstrPos(ta), "the not-an-object edge leads to parseOperand(operand) on every path")
+			}
+		}
+	}
+	if n == 0 {
+		c.Fail(construct, p.Pos(fn.Pos()), "no object test of an operand found in buildCompoundOperator (anchor lost)")
+	}
+}
+
+// sameElem: two loads of the same element address (go/ssa has no CSE).
+func sameElem(a, b ssa.Value) bool {
+	a, b = unspill(a), unspill(b)
+	if a == b {
+		return true
+	}
+	ua, ok1 := a.(*ssa.UnOp)
+	ub, ok2 := b.(*ssa.UnOp)
+	if !ok1 || !ok2 {
+		return false
+	}
+	if ua.X == ub.X {
+		return true
+	}
+	ia, ok1 := ua.X.(*ssa.IndexAddr)
+	ib, ok2 := ub.X.(*ssa.IndexAddr)
+	return ok1 && ok2 && ia.X == ib.X && ia.Index == ib.Index
 }
